@@ -88,7 +88,7 @@ def check(ctx):
                 "datagram with all other fields randomised, fed as bytes to HandleMsg4; distinct_nontrivial = datagrams that were answered")
     elif prop == "C15":
         ctx.design("DispatchMC.tla", "DispatchMC_d4.cfg")
-        reps = 3 if ctx.quick else 30
+        reps = 3 if ctx.quick else 200
         for o, a in produce(ctx, "d4addr", ["-mode", "d4addr", "-seed", ctx.seed, "-reps", reps], 1):
             runner.run_job(ctx, _job(ctx, "d4addr", o, a))
             paths.append(o)
@@ -139,9 +139,9 @@ def check(ctx):
                 "addresses and Interface-IDs) x global/link-local source x bound/unbound listener x chain result, fed as bytes to HandleMsg6; "
                 "distinct_nontrivial = relayed datagrams that were answered")
     elif prop == "C13":
-        ctx.design("DispatchMC.tla", "DispatchMC_chain.cfg")
+        ctx.design("DispatchMC.tla", "DispatchMC_chain.cfg" if ctx.quick else "DispatchMC_chain6.cfg")
         ctx.design("DispatchMC.tla", "DispatchMC_load.cfg")
-        for o, a in produce(ctx, "chain", ["-mode", "chain", "-seed", ctx.seed, "-maxlen", 5], 1):
+        for o, a in produce(ctx, "chain", ["-mode", "chain", "-seed", ctx.seed, "-maxlen", 5 if ctx.quick else 6], 1):
             runner.run_job(ctx, _job(ctx, "chain", o, a))
             paths.append(o)
         # the same chains (up to 3 / 4 handlers) with the server's log level at debug: what is logged changes nothing
@@ -191,7 +191,7 @@ def check(ctx):
                 return True
             return False
         nontriv = extra["chains_stopped_early"]
-        rule = ("all chains of 0..5 synthetic plugins (pass, modify, replace, stop, stop-with-nil) for both protocols, registered through "
+        rule = ("all chains of 0..%d synthetic plugins (pass, modify, replace, stop, stop-with-nil, nil-without-stop) for both protocols, and the chains of 0..%d again at log level debug, registered through " % ((5, 3) if ctx.quick else (6, 4))
                 "plugins.RegisterPlugin, loaded through plugins.LoadPlugins and driven through HandleMsg4/6; all plugin-kind lists (v4-only, v6-only, dual, "
                 "unknown, failing, nil handler) of the tier's length through LoadPlugins; server.Start with a slow (and a slow, failing) plugin setup under a "
                 "stream of SOLICITs over a real socket; distinct_nontrivial = chains that stopped before their last handler")
